@@ -557,6 +557,8 @@ func (s *system) exec(a Action) {
 		}
 	case "advance":
 		runtime.Gosched()
+	case "wait": // let the client settle for real (its books are in flux right after a cancellation)
+		time.Sleep(40 * time.Millisecond)
 	}
 }
 
@@ -1116,6 +1118,7 @@ func genOverlap(t *rapid.T) Case {
 	}
 	c.Actions = append(c.Actions, Action{Op: "release", OK: false, Match: fmt.Sprintf("query=r1|start=%d|", failing),
 		Err: rapid.IntRange(0, len(errAnswers)-1).Draw(t, "err")})
+	c.Actions = append(c.Actions, Action{Op: "wait"}, Action{Op: "wait"})
 	for i, n := 0, rapid.IntRange(0, 6).Draw(t, "moreReleases"); i < n; i++ {
 		c.Actions = append(c.Actions, Action{Op: "release", OK: rapid.IntRange(0, 4).Draw(t, fmt.Sprintf("ok%d", i)) > 0,
 			Pick: rapid.IntRange(0, 11).Draw(t, fmt.Sprintf("pick%d", i)), Err: rapid.IntRange(0, len(errAnswers)-1).Draw(t, fmt.Sprintf("err%d", i))})
